@@ -341,7 +341,15 @@ def run_float(ctx, cases):
                     if st["kind"] == "none":
                         motl.flip_handedness()
                     elif st["kind"] == "single":
-                        if (case["id"] + si) % 3 == 2:
+                        if (case["id"] + si) % 6 == 5:
+                            # IMOD tilt.com form (FULLIMAGE x y / THICKNESS z), one shared path as well
+                            com = os.path.join(ctx.workdir, "tilt.com")
+                            with open(com, "w") as fh:
+                                fh.write("# Command file to run Tilt\n$tilt -StandardInput\nInputProjections ts.ali\n"
+                                         "FULLIMAGE %d %d\nIMAGEBINNED 1\nTHICKNESS %d\nRADIAL 0.35 0.035\n$if (-e ./savework) ./savework\n"
+                                         % (int(single[0]), int(single[1]), int(single[2])))
+                            motl.flip_handedness(com)
+                        elif (case["id"] + si) % 3 == 2:
                             with open(shared, "w") as fh:
                                 fh.write(" ".join(repr(float(v)) for v in single) + "\n")
                             motl.flip_handedness(shared)
